@@ -34,3 +34,13 @@ Proof. exact canon_query_wf_lemma. Qed.
 Check canon_query_wf : forall fuel T t bs v fr r n,
   canonicalize fuel T t = Done ((bs, v), fr) -> resolve fuel T 0 t = Done r -> kinds_consistent (occs r) ->
   consts_usize v = true -> wf_query (n, (bs, v)) = true.
+
+(** Per unknown: a well-formed answer gives the i-th query unknown a value that mentions only answer
+    variables and placeholders of universes not above that unknown's own universe. *)
+Theorem wf_answer_universes : forall q a i p vk u, wf_answer q a = true ->
+  nth_error (a_subst a) i = Some p -> nth_error (q_binders q) i = Some (vk, u) ->
+  univ_le (map snd (a_binders a)) u 0 p = true.
+Proof. exact wf_answer_universes_lemma. Qed.
+Check wf_answer_universes : forall q a i p vk u, wf_answer q a = true ->
+  nth_error (a_subst a) i = Some p -> nth_error (q_binders q) i = Some (vk, u) ->
+  univ_le (map snd (a_binders a)) u 0 p = true.
